@@ -554,3 +554,30 @@ func (OrderOracle) AfterCycle(r *Run, cycle int, all []Decision) {
 }
 
 var _ = math.Abs
+
+// ---------------------------------------------------------------------------------- C10
+
+// RobustnessOracle: panics are reported by the run loop; this oracle checks the second clause:
+// a healthy witness workload (own queue, own node) is still scheduled.
+type RobustnessOracle struct{ BaseOracle }
+
+func (RobustnessOracle) Prop() string { return "C10" }
+
+func (RobustnessOracle) Finish(r *Run) {
+	hasWitness := false
+	for _, w := range r.S.World.Workloads {
+		if w.Name == "ww" {
+			hasWitness = true
+		}
+	}
+	if !hasWitness || r.cycle < 2 || r.Sched.Panic != "" {
+		return
+	}
+	r.Probe("c10_witness_judged")
+	for _, d := range r.Sched.Obs.Decisions {
+		if d.Pod == "ww-p0" && d.Kind == "bind" && d.Err == "" {
+			return
+		}
+	}
+	r.Fail("C10", "healthy_workload_not_scheduled", "after %d cycles the healthy witness workload ww (own queue qw, own node nw) was never bound", r.cycle)
+}
